@@ -13,37 +13,39 @@ import (
 	"errors"
 	"fmt"
 	"sort"
-	"strings"
 
+	"google.golang.org/protobuf/types/known/structpb"
 	corev1 "k8s.io/api/core/v1"
 	metav1 "k8s.io/apimachinery/pkg/apis/meta/v1"
 	"k8s.io/apimachinery/pkg/apis/meta/v1/unstructured"
 	"k8s.io/apimachinery/pkg/runtime"
 	"k8s.io/apimachinery/pkg/runtime/schema"
 	"k8s.io/apimachinery/pkg/types"
-	"google.golang.org/protobuf/types/known/structpb"
 	"sigs.k8s.io/controller-runtime/pkg/reconcile"
 
 	"github.com/crossplane/crossplane-runtime/pkg/resource"
 	ucomposite "github.com/crossplane/crossplane-runtime/pkg/resource/unstructured/composite"
 
-	v1 "github.com/crossplane/crossplane/apis/apiextensions/v1"
 	fnv1 "github.com/crossplane/crossplane/apis/apiextensions/fn/proto/v1"
+	v1 "github.com/crossplane/crossplane/apis/apiextensions/v1"
 	"github.com/crossplane/crossplane/internal/controller/apiextensions/composite"
 	"github.com/crossplane/crossplane/internal/names"
 )
 
 const (
 	xwInvalidContent = 9 // spec.content value the simulated API server rejects as invalid
-	xwGroup      = "example.org"
-	xwXRName     = "xr"
-	xwForeignUID = "foreign-uid"
-	xwAnnot      = "crossplane.io/composition-resource-name"
+	xwGroup          = "example.org"
+	// a second API group that serves a kind with the SAME Kind name as xwGroup's "KA": the
+	// model kind "KA2" is Kind "KA" of this group (sorts before xwGroup, like "KA2x.." < "KAx..")
+	xwGroup2 = "aaa.example.org"
+	xwXRName         = "xr"
+	xwForeignUID     = "foreign-uid"
+	xwAnnot          = "crossplane.io/composition-resource-name"
 )
 
 var (
 	xwXRGVK = schema.GroupVersionKind{Group: xwGroup, Version: "v1", Kind: "XThing"}
-	xwKinds = []string{"KA", "KB"}
+	xwKinds = []string{"KA", "KB", "KA2"}
 )
 
 // xwObj is the abstract view of a composed-kind object.
@@ -95,8 +97,8 @@ type xwHints struct {
 }
 
 type xwScn struct {
-	Mode   string    `json:"mode"` // "fn" | "pt"
-	Fin    bool      `json:"fin"`  // XR already carries the composite finalizer
+	Mode string `json:"mode"` // "fn" | "pt"
+	Fin  bool   `json:"fin"`  // XR already carries the composite finalizer
 	// the function composer's field manager has never applied this XR's references (a
 	// first apply by a new manager bumps the resourceVersion even when no value changes)
 	Fresh  bool      `json:"fresh,omitempty"`
@@ -120,10 +122,31 @@ type xwWorld struct {
 	seen  map[string]bool
 	// live name per rname at the previous instant (name-stability monitor)
 	prevName map[string]string
+	// the reconciler and its composer are long-lived objects of one process: built once, used
+	// for every reconcile, rebuilt only after a crash (process restart) or a mode change
+	rec     *composite.Reconciler
+	recMode string
+	cur     *xwRound // the round the long-lived function runner / fetcher serve
+	curRev  *v1.CompositionRevision
+	gen     *[][2]string // names generated in the current round
 }
 
 func xwKindGVK(kind string) schema.GroupVersionKind {
+	if kind == "KA2" {
+		return schema.GroupVersionKind{Group: xwGroup2, Version: "v1", Kind: "KA"}
+	}
 	return schema.GroupVersionKind{Group: xwGroup, Version: "v1", Kind: kind}
+}
+
+// xwAPIVersion is the apiVersion of model kind `kind` at version `ver`.
+func xwAPIVersion(kind, ver string) string { return xwKindGVK(kind).Group + "/" + xwVer(ver) }
+
+// xwModelKind maps a real (group, Kind) back to the model's kind string.
+func xwModelKind(group, kind string) string {
+	if group == xwGroup2 {
+		return kind + "2"
+	}
+	return kind
 }
 
 func xwFieldOwner(xrUID string) string {
@@ -161,7 +184,7 @@ func xwNewWorld(s xwScn) *xwWorld {
 	}
 	refs := []corev1.ObjectReference{}
 	for _, r := range s.Refs {
-		refs = append(refs, corev1.ObjectReference{APIVersion: xwGroup + "/v1", Kind: r.Kind, Name: r.Name})
+		refs = append(refs, corev1.ObjectReference{APIVersion: xwAPIVersion(r.Kind, "v1"), Kind: xwKindGVK(r.Kind).Kind, Name: r.Name})
 	}
 	xr.SetResourceReferences(refs)
 	st.Seed(xr)
@@ -217,7 +240,8 @@ func (w *xwWorld) view() ([]xwRef, []xwObj, bool) {
 	xr.SetUnstructuredContent(w.St.Peek(xwXRGVK.GroupKind(), "", xwXRName).Object)
 	refs := []xwRef{}
 	for _, r := range xr.GetResourceReferences() {
-		refs = append(refs, xwRef{Kind: r.Kind, Name: r.Name})
+		gv, _ := schema.ParseGroupVersion(r.APIVersion)
+		refs = append(refs, xwRef{Kind: xwModelKind(gv.Group, r.Kind), Name: r.Name})
 	}
 	sort.Slice(refs, func(i, j int) bool { return refs[i].Kind+"/"+refs[i].Name < refs[j].Kind+"/"+refs[j].Name })
 	objs := []xwObj{}
@@ -309,14 +333,14 @@ func genHas(g [][2]string, rn string) bool { return rnameTaken(g, rn) }
 
 type xwRecordingNamer struct {
 	inner names.NameGenerator
-	gen   *[][2]string
+	w     *xwWorld
 }
 
 func (n xwRecordingNamer) GenerateName(ctx context.Context, cd resource.Object) error {
 	had := cd.GetName()
 	err := n.inner.GenerateName(ctx, cd)
 	if err == nil && had == "" && cd.GetName() != "" {
-		*n.gen = append(*n.gen, [2]string{cd.GetAnnotations()[xwAnnot], cd.GetName()})
+		*n.w.gen = append(*n.w.gen, [2]string{cd.GetAnnotations()[xwAnnot], cd.GetName()})
 	}
 	return err
 }
@@ -349,7 +373,7 @@ func xwPTRevision(ds []xwDesired, ver string) *v1.CompositionRevision {
 	rev.Spec.Mode = &mode
 	for _, d := range ds {
 		name := d.RName
-		base := map[string]any{"apiVersion": xwGroup + "/" + xwVer(ver), "kind": d.Kind, "spec": map[string]any{"content": d.Content}}
+		base := map[string]any{"apiVersion": xwAPIVersion(d.Kind, ver), "kind": xwKindGVK(d.Kind).Kind, "spec": map[string]any{"content": d.Content}}
 		raw, _ := json.Marshal(base)
 		t := v1.ComposedTemplate{Name: &name, Base: runtime.RawExtension{Raw: raw}}
 		if !d.Ready {
@@ -362,6 +386,50 @@ func xwPTRevision(ds []xwDesired, ver string) *v1.CompositionRevision {
 		rev.Spec.Resources = append(rev.Spec.Resources, t)
 	}
 	return rev
+}
+
+// newReconciler builds the real reconciler with the real composer of `mode`, wired to the
+// world's current round through pointers (the function runner answers with w.cur's desired
+// state, the revision fetcher returns w.curRev, generated names are recorded in *w.gen).
+func (w *xwWorld) newReconciler(mode string) *composite.Reconciler {
+	st := w.St
+	runner := composite.FunctionRunnerFn(func(_ context.Context, _ string, req *fnv1.RunFunctionRequest) (*fnv1.RunFunctionResponse, error) {
+		rd := w.cur
+		if rd.FnErr == "error" {
+			return nil, errors.New("function failed")
+		}
+		rsp := &fnv1.RunFunctionResponse{Desired: &fnv1.State{Resources: map[string]*fnv1.Resource{}}}
+		for _, d := range rd.Desired {
+			s, _ := structpb.NewStruct(map[string]any{"apiVersion": xwAPIVersion(d.Kind, rd.Ver), "kind": xwKindGVK(d.Kind).Kind, "spec": map[string]any{"content": d.Content}})
+			rdy := fnv1.Ready_READY_FALSE
+			if d.Ready {
+				rdy = fnv1.Ready_READY_TRUE
+			}
+			rsp.Desired.Resources[d.RName] = &fnv1.Resource{Resource: s, Ready: rdy}
+		}
+		if rd.FnErr == "fatal" {
+			rsp.Results = []*fnv1.Result{{Severity: fnv1.Severity_SEVERITY_FATAL, Message: "fatal"}}
+		}
+		return rsp, nil
+	})
+	var composer composite.Composer
+	wrap := func(g names.NameGenerator) names.NameGenerator { return xwRecordingNamer{inner: g, w: w} }
+	if mode == "fn" {
+		fc := composite.NewFunctionComposer(st, st, runner)
+		composite.VerifWrapFnNameGenerator(fc, wrap)
+		composer = fc
+	} else {
+		pc := composite.NewPTComposer(st, st)
+		composite.VerifWrapPTNameGenerator(pc, wrap)
+		composer = pc
+	}
+	return composite.NewReconciler(st, st, resource.CompositeKind(xwXRGVK),
+		composite.WithComposer(composer),
+		composite.WithCompositionSelector(composite.CompositionSelectorFn(func(context.Context, resource.Composite) error { return nil })),
+		composite.WithCompositionRevisionFetcher(composite.CompositionRevisionFetcherFn(func(context.Context, resource.Composite) (*v1.CompositionRevision, error) { return w.curRev, nil })),
+		composite.WithCompositionRevisionValidator(composite.CompositionRevisionValidatorFn(func(*v1.CompositionRevision) error { return nil })),
+		composite.WithConfigurator(composite.ConfiguratorFn(func(context.Context, resource.Composite, *v1.CompositionRevision) error { return nil })),
+	)
 }
 
 // xwRunRound performs one reconcile. Hints are filled from the observation.
@@ -381,53 +449,21 @@ func (w *xwWorld) xwRunRound(mode string, rd *xwRound, extraCheck func()) xwRoun
 			startObserved[o.Annot] = true
 		}
 	}
-	fnCalled := -1
-
-	runner := composite.FunctionRunnerFn(func(_ context.Context, _ string, req *fnv1.RunFunctionRequest) (*fnv1.RunFunctionResponse, error) {
-		fnCalled = st.Calls
-		if rd.FnErr == "error" {
-			return nil, errors.New("function failed")
-		}
-		rsp := &fnv1.RunFunctionResponse{Desired: &fnv1.State{Resources: map[string]*fnv1.Resource{}}}
-		for _, d := range rd.Desired {
-			s, _ := structpb.NewStruct(map[string]any{"apiVersion": xwGroup + "/" + xwVer(rd.Ver), "kind": d.Kind, "spec": map[string]any{"content": d.Content}})
-			rdy := fnv1.Ready_READY_FALSE
-			if d.Ready {
-				rdy = fnv1.Ready_READY_TRUE
-			}
-			rsp.Desired.Resources[d.RName] = &fnv1.Resource{Resource: s, Ready: rdy}
-		}
-		if rd.FnErr == "fatal" {
-			rsp.Results = []*fnv1.Result{{Severity: fnv1.Severity_SEVERITY_FATAL, Message: "fatal"}}
-		}
-		return rsp, nil
-	})
-	_ = fnCalled
-
-	rev := &v1.CompositionRevision{}
-	var composer composite.Composer
-	wrap := func(g names.NameGenerator) names.NameGenerator { return xwRecordingNamer{inner: g, gen: &gen} }
+	w.cur = rd
+	w.gen = &gen
 	if mode == "fn" {
+		rev := &v1.CompositionRevision{}
 		m := v1.CompositionModePipeline
 		rev.Spec.Mode = &m
 		rev.Spec.Pipeline = []v1.PipelineStep{{Step: "s0", FunctionRef: v1.FunctionReference{Name: "fn0"}}}
-		fc := composite.NewFunctionComposer(st, st, runner)
-		composite.VerifWrapFnNameGenerator(fc, wrap)
-		composer = fc
+		w.curRev = rev
 	} else {
-		rev = xwPTRevision(rd.Desired, rd.Ver)
-		pc := composite.NewPTComposer(st, st)
-		composite.VerifWrapPTNameGenerator(pc, wrap)
-		composer = pc
+		w.curRev = xwPTRevision(rd.Desired, rd.Ver)
 	}
-
-	r := composite.NewReconciler(st, st, resource.CompositeKind(xwXRGVK),
-		composite.WithComposer(composer),
-		composite.WithCompositionSelector(composite.CompositionSelectorFn(func(context.Context, resource.Composite) error { return nil })),
-		composite.WithCompositionRevisionFetcher(composite.CompositionRevisionFetcherFn(func(context.Context, resource.Composite) (*v1.CompositionRevision, error) { return rev, nil })),
-		composite.WithCompositionRevisionValidator(composite.CompositionRevisionValidatorFn(func(*v1.CompositionRevision) error { return nil })),
-		composite.WithConfigurator(composite.ConfiguratorFn(func(context.Context, resource.Composite, *v1.CompositionRevision) error { return nil })),
-	)
+	if w.rec == nil || w.recMode != mode {
+		w.rec, w.recMode = w.newReconciler(mode), mode
+	}
+	r := w.rec
 	if rd.Fault != nil {
 		f := *rd.Fault
 		st.Plan = func(c CallInfo) Outcome {
@@ -451,17 +487,20 @@ func (w *xwWorld) xwRunRound(mode string, rd *xwRound, extraCheck func()) xwRoun
 	}
 	st.After = nil
 	crashed := st.Crashed()
+	if crashed {
+		w.rec = nil // process restart: the next reconcile runs in a new process
+	}
 	obs := xwRoundObs{Calls: []string{}}
 	// name -> rname map for hints (objects + this round's generated names)
 	rnameOf := map[string]string{}
 	for _, g := range gen {
-		rnameOf[g[1]] = g[0]
+		rnameOf["*/"+g[1]] = g[0]
 	}
 	_, objs, _ := w.view()
 	for _, o := range append(objs, objs0...) {
 		if o.Annot != "" {
-			if _, ok := rnameOf[o.Name]; !ok {
-				rnameOf[o.Name] = o.Annot
+			if _, ok := rnameOf[o.Kind+"/"+o.Name]; !ok {
+				rnameOf[o.Kind+"/"+o.Name] = o.Annot
 			}
 		}
 	}
@@ -471,7 +510,8 @@ func (w *xwWorld) xwRunRound(mode string, rd *xwRound, extraCheck func()) xwRoun
 	xrUpdates := 0
 	genSeen := map[string]bool{}
 	for _, c := range st.Log {
-		gk := strings.SplitN(c.GK, ".", 2)[0]
+		pgk := schema.ParseGroupKind(c.GK)
+		gk := xwModelKind(pgk.Group, pgk.Kind)
 		e := fmt.Sprintf("%s %s/%s", c.Verb, gk, c.Name)
 		if c.Sub != "" {
 			e += "/" + c.Sub
@@ -493,7 +533,10 @@ func (w *xwWorld) xwRunRound(mode string, rd *xwRound, extraCheck func()) xwRoun
 			}
 			continue
 		}
-		rn := rnameOf[c.Name]
+		rn := rnameOf["*/"+c.Name] // generated in this round (random, unique across kinds)
+		if rn == "" {
+			rn = rnameOf[gk+"/"+c.Name]
+		}
 		switch {
 		case c.Verb == "get" && !refWritten && !startRefs[gk+"/"+c.Name] && !genSeen[c.Name]:
 			// a name-availability probe of the name generator
